@@ -40,40 +40,61 @@ class SeqSource:
 
 
 class SSeq:
-    """pipe = (source, preds, keys, maps); each of preds/keys/maps is a list of Python callables elem_value -> value,
-    applied in order (a map changes the value later stages see)."""
+    """pipe = source + a chain of stages ('filter' | 'sort' | 'map', fn); fn maps the current element value to a value.
+    Pipes are immutable; the evaluation at a canonical element is cached per pipe and shared with its prefix pipes."""
 
-    def __init__(self, src: SeqSource, stages=(), kind='list', prestate=True):
+    def __init__(self, src: SeqSource, stages=(), kind='list', prestate=True, parent=None, stage=None):
         self.src = src
-        self.stages: Tuple[Tuple[str, Callable], ...] = tuple(stages)    # ('filter'|'sort'|'map', fn)
+        self.parent = parent
+        self.stage = stage
         self.kind = kind
         self.prestate = prestate
         self._canon = None
+        self._cache = {}
+        if stages:
+            # build the chain
+            p = SSeq(src, (), kind, prestate)
+            for st in stages:
+                p = SSeq(src, (), 'list', False, p, st)
+            self.parent, self.stage = p.parent, p.stage
+
+    @property
+    def stages(self):
+        out = []
+        p = self
+        while p is not None and p.stage is not None:
+            out.append(p.stage)
+            p = p.parent
+        return tuple(reversed(out))
 
     @property
     def length(self):
         raise Unsupported('use len() on a pipe')
 
     def with_stage(self, kind, fn):
-        return SSeq(self.src, self.stages + ((kind, fn),), 'list', False)
+        return SSeq(self.src, (), 'list', False, self, (kind, fn))
 
     def is_base(self):
-        return not self.stages
+        return self.stage is None
 
     def eval_at(self, suffix):
         """(pred: z3 Bool|bool, keys: [value], value) of the pipe at the canonical element `suffix`."""
         from .interp import _and
-        v = self.src.elem(suffix)
-        pred = True
-        keys = []
-        for kind, fn in self.stages:
+        if suffix in self._cache:
+            return self._cache[suffix]
+        if self.stage is None:
+            r = (True, [], self.src.elem(suffix))
+        else:
+            pred, keys, v = self.parent.eval_at(suffix)
+            kind, fn = self.stage
             if kind == 'filter':
-                pred = _and(pred, fn(v))
+                r = (_and(pred, fn(v)), keys, v)
             elif kind == 'sort':
-                keys.append(fn(v))
+                r = (pred, keys + [fn(v)], v)
             else:
-                v = fn(v)
-        return pred, keys, v
+                r = (pred, keys, fn(v))
+        self._cache[suffix] = r
+        return r
 
 
 class PipeTable:
@@ -113,16 +134,32 @@ class PipeTable:
             return True
         if g is False:
             return False
+        hs = [zbool(h) for h in hyps if h is not True]
+        # 1. without the path condition: a pointwise fact proved from the element invariants alone holds on every path, so
+        #    the answer is cached across paths (the cache key is the text of the query)
+        key = (tuple(sorted(h.sexpr() for h in hs)), g.sexpr())
+        cache = self.I.valid_cache
+        r0 = cache.get(key)
+        if r0 is None:
+            s = z3.Solver()
+            s.set('timeout', 2000)
+            for h in hs:
+                s.add(h)
+            s.add(z3.Not(g))
+            r0 = s.check() == z3.unsat
+            cache[key] = r0
+        if r0:
+            self.I.oblige_with(hyps, 'unify', label, g)
+            return True
+        # 2. with the path condition (e.g. 'no filter was passed' on this path)
         s = z3.Solver()
-        s.set('timeout', 3000)
+        s.set('timeout', 2000)
         for c in self.I.pc:
             s.add(c)
-        for h in hyps:
-            if h is not True:
-                s.add(zbool(h))
+        for h in hs:
+            s.add(h)
         s.add(z3.Not(g))
-        r = s.check()
-        if r == z3.unsat:
+        if s.check() == z3.unsat:
             self.I.oblige_with(hyps, 'unify', label, g)
             return True
         return False
@@ -182,9 +219,12 @@ class PipeTable:
         cid = self.canon_id(p)
         if what in ('ne', 'len'):
             # emptiness and length do not depend on sort keys or maps: canonical id of the filter-only pipe
-            f = SSeq(p.src, tuple(st for st in p.stages if st[0] == 'filter' or st[0] == 'map'), 'list', False)
+            if not hasattr(p, '_fonly'):
+                stages = p.stages
+                p._fonly = p if not any(st[0] == 'sort' for st in stages) else \
+                    SSeq(p.src, tuple(st for st in stages if st[0] != 'sort'), 'list', False)
             # maps matter only through later filters; keep them
-            cid = self.canon_id(f)
+            cid = self.canon_id(p._fonly)
         key = (cid, what, extra)
         if key in self.obs:
             return self.obs[key]
@@ -199,6 +239,13 @@ class PipeTable:
                 I.assume(v == p.src.length)
             else:
                 I.assume(v <= p.src.length)
+                pp, _, _ = p.eval_at('i')
+                inv_i = self._inv(p.src, 'i')
+                from .interp import _not
+                if self.valid([inv_i], _not(pp), f'{p.src.name}:filter-rejects-everything'):
+                    I.assume(v == 0)
+                elif self.valid([inv_i], pp, f'{p.src.name}:filter-keeps-everything'):
+                    I.assume(v == p.src.length)
         elif what == 'join':
             v = z3.String(f'join({extra!r},{base})')
             ne = self.observable(p, 'ne')
